@@ -485,6 +485,10 @@ def _work(item: Tuple[str, str, str]) -> Dict[str, Any]:
     try:
         if stream == "incomplete-snippets":
             return run_model(text, list(ENTRIES) + incomplete_snippet_entries(text))
+        if stream == "corpus":
+            # a witness may name the entries to run beside the standard ones (e.g. "java:without:<snippet key>")
+            extra = next((c.get("entries", []) for c in corpus(ID) if c["name"] == name and c["text"] == text), [])
+            return run_model(text, list(ENTRIES) + list(extra))
         return run_model(text)
     except BaseException as e:  # noqa: B902  (harness problem, not a project crash)
         return {"accepted": False, "frontend": "harness-error", "runs": [], "error": f"{type(e).__name__}: {e}", "tb": traceback.format_exc()}
